@@ -117,6 +117,16 @@ def gen_scenario(seed: int, algos: Sequence[str], envs: Optional[Sequence[str]] 
         sc["cone"] = gen_cone(rng, m=2, allow_kf_ne_m=False)
     else:
         sc["cone"] = gen_cone(rng, m=m, orthant_only=orth, allow_kf_ne_m=features.get("kf_ne_m", True))
+    if features.get("acute_hug") and not orth:
+        # acute cones (cone matrix with negative entries): mixed corner pairs decide dominance
+        c = rng.random()
+        if c < 0.6:
+            sc["cone"] = {"kind": "theta2d", "deg": float(rng.choice([30, 40, 45, 50, 60, 70, 80]))}
+        elif c < 0.8:
+            sc["cone"] = {"kind": "cone3d", "type": "acute"}
+        else:
+            mm = int(rng.choice([2, 3]))
+            sc["cone"] = {"kind": "matrix", "W": random_cone_matrix(rng, mm, mm).tolist()}
     if features.get("d8_hunt"):
         # hunted candidate D8: rectangles + a cone with (W alpha)_n > alpha_n (obtuse cones), where the
         # eps-slack eps*alpha is read as an objective-space shift
@@ -239,6 +249,9 @@ def gen_scenario(seed: int, algos: Sequence[str], envs: Optional[Sequence[str]] 
     if rng.random() < 0.2 and K >= 2:
         i, j = rng.choice(K, 2, replace=False)
         adv["twins"] = [[int(i), int(j), int(rng.integers(2, 8))]]
+    if features.get("acute_hug"):
+        adv.update({"rho_mode": "hug", "jump": False, "twins": []})
+        adv.pop("twins", None)
     if features.get("d8_hunt"):
         adv.update({"aniso": True, "cond": float(rng.choice([100, 1e4])), "rho_mode": str(rng.choice(["hug", "mix"])), "degenerate": bool(rng.random() < 0.3), "jump": bool(rng.random() < 0.5)})
     sc["adv"] = adv
